@@ -41,7 +41,7 @@ package pools
 // groups into the same evaluator (ResetTxnBytes) — the assembled block must still validate.
 // Thorough adds RK to the std world: a payment from R (rekeyed to K in block 1) signed by K.
 // Bound: quick: <= 3 ops (+ the Tick of clause (b)), <= 3 pending groups, <= 2 round ops (7 Remember items);
-//        thorough: <= 6 ops, <= 4 pending groups, <= 3 round ops (9 items), time-capped.
+//        thorough: <= 6 ops (small world: <= 4), <= 4 pending groups, <= 3 round ops (10 items), time-capped.
 // Key = block history (txn names + proposer per block), ordered pending groups, payset of the
 // pre-generated proposal, fee multiplier / pending whole blocks.
 //
@@ -614,6 +614,7 @@ type c20sys struct {
 	asmDigest string // digest of the whole pre-generated (unfinished) block: a block is NOT assumed to be a function of its payset names
 	outcome   string
 	consumed  bool // Final mutated the instance
+	lingering bool // a rejecting evaluation ran on l1: close it later (see c20CloseLater)
 }
 
 func (s *c20sys) name(id transactions.Txid) string {
@@ -693,7 +694,59 @@ func (s *c20sys) close() {
 		s.pool.Shutdown()
 	}
 	if s.l1 != nil {
-		s.l1.Close()
+		if s.lingering {
+			c20CloseLater(s.l1.Close)
+		} else {
+			s.l1.Close()
+		}
+	}
+}
+
+// An eval.Eval that REJECTS a block returns as soon as the signature validator reports, while
+// worker goroutines of the prefetcher may still be inside a ledger lookup (they are not awaited);
+// Ledger.Close at that moment makes such a lookup dereference the already cleared account
+// queries (nil pointer panic in accountUpdates.lookupWithoutRewards — a shutdown race of the
+// repository, unrelated to C20). Ledgers that saw a rejecting evaluation are therefore closed a
+// few seconds later. Wall-clock use for resource clean-up only: no verdict depends on it.
+var c20Graveyard struct {
+	mu   sync.Mutex
+	list []c20pendingClose
+}
+
+type c20pendingClose struct {
+	fn func()
+	at time.Time
+}
+
+const c20CloseDelay = 5 * time.Second
+
+func c20CloseLater(fn func()) {
+	now := time.Now()
+	var due []func()
+	c20Graveyard.mu.Lock()
+	c20Graveyard.list = append(c20Graveyard.list, c20pendingClose{fn, now})
+	for len(c20Graveyard.list) > 0 && now.Sub(c20Graveyard.list[0].at) > c20CloseDelay {
+		due = append(due, c20Graveyard.list[0].fn)
+		c20Graveyard.list = c20Graveyard.list[1:]
+	}
+	c20Graveyard.mu.Unlock()
+	for _, f := range due {
+		f()
+	}
+}
+
+func c20CloseAllLater() {
+	c20Graveyard.mu.Lock()
+	list := c20Graveyard.list
+	c20Graveyard.list = nil
+	c20Graveyard.mu.Unlock()
+	if len(list) > 0 {
+		if d := c20CloseDelay - time.Since(list[len(list)-1].at); d > 0 {
+			time.Sleep(d)
+		}
+	}
+	for _, e := range list {
+		e.fn()
 	}
 }
 
@@ -1082,10 +1135,10 @@ func (s *c20sys) acquireReplicas() *c20replicas {
 
 func (e *c20replicas) close() {
 	if e.l2 != nil {
-		e.l2.Close()
+		c20CloseLater(e.l2.Close)
 	}
 	if e.l3 != nil {
-		e.l3.Close()
+		c20CloseLater(e.l3.Close)
 	}
 }
 
@@ -1317,6 +1370,7 @@ func (s *c20sys) checkAlterations(blk bookkeeping.Block, desc string, l3 *ledger
 	if len(blk.Payset) == 0 {
 		return nil
 	}
+	s.lingering = true
 	warm := verify.MakeVerifiedTransactionCache(64)
 	w.nLegs.Add(1)
 	if _, err := eval.Eval(ctx, l3, blk, true, warm, w.bl4, nil); err != nil {
@@ -1545,7 +1599,8 @@ func TestVerif_C20(t *testing.T) {
 	var nFinal, nLegs int64
 	nh, nl := 0, 0
 	var rules []string
-	for _, wname := range []string{"std", "small"} {
+	// "small" first and bounded at depth 4: the time budget is global and "std" at depth 6 uses all of it
+	for _, wname := range []string{"small", "std"} {
 		w, err := c20MakeWorld(wname)
 		if err != nil {
 			t.Fatalf("C20 harness: cannot build the world %s: %v", wname, err)
@@ -1598,6 +1653,9 @@ func TestVerif_C20(t *testing.T) {
 			Observe:  func(h *c20h) string { return h.sys.outcome },
 			MaxDepth: depth,
 		}
+		if wname == "small" {
+			q.MaxDepth = ve.Pick(3, 4)
+		}
 		// the start state's own proposal
 		if r.ReplayRequest() == nil {
 			s0 := c20New(w)
@@ -1614,6 +1672,7 @@ func TestVerif_C20(t *testing.T) {
 		for _, e := range w.reps {
 			e.close()
 		}
+		c20CloseAllLater()
 		w.bl1.Shutdown()
 		w.bl4.Shutdown()
 		w.outcomes.Range(func(k, _ any) bool { allOutcomes[wname+"/"+k.(string)] = true; return true })
